@@ -122,6 +122,25 @@ func maxInt(a, b int) int {
 	return b
 }
 
+// symTrueLen: the bit length of a symbolic integer as a BV64 term, exact with respect to comparisons against the
+// thresholds 256k and 256k+1 (k <= 20) and 1793, which are the only ones the repository compares against.
+func (in *Interp) symTrueLen(n *NumV) *Term {
+	k, _ := in.misc["tlSeq"].(int)
+	in.misc["tlSeq"] = k + 1
+	tl := Var(fmt.Sprintf("truelen#%d", k), BV(64))
+	abs := Ite(Lt(n.T, IntConstI(0)), Neg(n.T), n.T)
+	in.assumeAxiom(And(BVSle(i64(0), tl), BVSle(tl, i64(int64(n.Ann)+1))))
+	ths := []int{1793}
+	for j := 0; j <= 20; j++ {
+		ths = append(ths, 256*j, 256*j+1)
+	}
+	for _, t := range ths {
+		in.assumeAxiom(Eq(BVSle(tl, i64(int64(t))), Lt(abs, pow2(t))))
+	}
+	in.stubsSeen["num-model:TrueLen(symbolic) exact at thresholds 256k, 256k+1, 1793"] = true
+	return tl
+}
+
 func (in *Interp) natFromBytes(bs []*Term, name string) *NumV {
 	if cb, ok := allConstBytes(bs); ok {
 		return &NumV{C: new(big.Int).SetBytes(cb), Ann: 8 * len(bs)}
@@ -251,10 +270,7 @@ func init() {
 		if n.conc() {
 			return i64(int64(n.C.BitLen()))
 		}
-		// leak of the true length: concretise by forking over the announced range is too wide; use Ann as the
-		// public length when the value is symbolic (documented over-approximation used only for buffer sizes)
-		in.stubsSeen["num-model:TrueLen(symbolic)=announced"] = true
-		return i64(int64(n.Ann))
+		return in.symTrueLen(n)
 	})
 	N("Bytes", func(in *Interp, fr *Frame, a []Value) Value {
 		n := in.num(a[0])
@@ -614,8 +630,7 @@ func init() {
 		if n.conc() {
 			return i64(int64(n.C.BitLen()))
 		}
-		in.stubsSeen["num-model:TrueLen(symbolic)=announced"] = true
-		return i64(int64(n.Ann))
+		return in.symTrueLen(n)
 	})
 	I("Neg", func(in *Interp, fr *Frame, a []Value) Value {
 		n := in.num(a[0])
